@@ -42,6 +42,7 @@ class DummyTimeSeriesRegressor(BaseTimeSeries, TimeSeriesRegressorMixin):
             use_all_past=use_all_past,
             preprocessing=preprocessing,
         )
+        self.estimator = estimator
 
     def fit(self, X, y, sample_weight=None):
         """
